@@ -315,6 +315,60 @@ macro_rules! float_forms {
                         let _: &[_] = &[s1, s2, fs];
                     }};
                 }
+                // folds with factors / terms a shortcut would treat as neutral: exactly one() / zero(), and values that
+                // only *approximately* equal them (is_identity / is_zero are ulps-comparisons), next to factors large
+                // enough that dropping the almost-neutral one changes the bits of the result
+                {
+                    let bits_s = <$S>::MANTISSA_DIGITS as i32;          // 24 / 53
+                    let tiny: $S = (2.0 as $S).powi(-(bits_s + 2));     // below EPSILON: "is_identity" holds for I + tiny
+                    let big: $S = (2.0 as $S).powi(bits_s - 13);
+                    macro_rules! special_prod {
+                        ($name:expr, $T:ty, $one:expr, $near:expr, $x:expr, $y:expr) => {{
+                            let l: Vec<$T> = vec![$x, $near, $one, $y, $near, $x];
+                            let fp = l.iter().fold($one, |acc, z| acc * *z);
+                            let p1: $T = l.iter().product();
+                            let p2: $T = l.clone().into_iter().product();
+                            let dropped: $T = vec![$x, $y, $x].into_iter().fold($one, |acc, z| acc * z);
+                            $ctx.folds.rec(p1.bits() == fp.bits() && p2.bits() == fp.bits(),
+                                || format!("{}<{}> Product over a list with an exactly-neutral and an almost-neutral factor (off by {:e}): by-ref {:x?}, by-value {:x?}, left fold {:x?}",
+                                    $name, stringify!($S), tiny, p1.bits(), p2.bits(), fp.bits()));
+                            // the data are such that the almost-neutral factor matters (guards the check itself)
+                            $ctx.folds.rec(fp.bits() != dropped.bits(), || format!("{}<{}>: special fold data are not sensitive", $name, stringify!($S)));
+                        }};
+                    }
+                    let mut n2 = Matrix2::<$S>::identity(); n2[1][0] = tiny;
+                    let mut n3 = Matrix3::<$S>::identity(); n3[1][0] = tiny;
+                    let mut n4 = Matrix4::<$S>::identity(); n4[1][0] = tiny;
+                    special_prod!("Matrix2", Matrix2<$S>, Matrix2::<$S>::identity(), n2, Matrix2::from_diagonal(Vector2::new(big, 3.0)), Matrix2::from_diagonal(Vector2::new(1.0, 2.0)));
+                    special_prod!("Matrix3", Matrix3<$S>, Matrix3::<$S>::identity(), n3, Matrix3::from_diagonal(Vector3::new(big, 3.0, 5.0)),
+                        Matrix3::from_diagonal(Vector3::new(1.0, 2.0, 3.0)));
+                    special_prod!("Matrix4", Matrix4<$S>, Matrix4::<$S>::identity(), n4, Matrix4::from_diagonal(Vector4::new(big, 3.0, 5.0, 7.0)),
+                        Matrix4::from_diagonal(Vector4::new(1.0, 2.0, 3.0, 1.0)));
+                    let nq = Quaternion::<$S>::new(1.0, tiny, 0.0, 0.0);
+                    special_prod!("Quaternion", Quaternion<$S>, Quaternion::<$S>::one(), nq, Quaternion::new(big, 1.0, 2.0, 3.0), Quaternion::new(2.0, 0.0, 0.0, 0.0));
+                    let half = (2.0 as $S).powi((bits_s - 13) / 2);
+                    let nb3: Basis3<$S> = Rotation3::from_angle_z(Rad(tiny));
+                    let bb3 = Basis3::from_quaternion(&Quaternion::new(0.0, half, 0.0, 0.0));      // diag(1, 1 - 2 half^2, 1 - 2 half^2)
+                    special_prod!("Basis3", Basis3<$S>, Basis3::<$S>::one(), nb3, bb3, Basis3::from_quaternion(&Quaternion::new(0.0, 0.0, 2.0, 0.0)));
+                    // sums: exactly zero and almost-zero terms only
+                    macro_rules! special_sum {
+                        ($name:expr, $T:ty, $zero:expr, $near:expr) => {{
+                            let l: Vec<$T> = vec![$near, $zero, $near, $near];
+                            let fs = l.iter().fold($zero, |acc, z| acc + *z);
+                            let s1: $T = l.iter().sum();
+                            let s2: $T = l.clone().into_iter().sum();
+                            $ctx.folds.rec(s1.bits() == fs.bits() && s2.bits() == fs.bits() && fs.bits() != ($zero).bits(),
+                                || format!("{}<{}> Sum of almost-zero terms ({:e} each): by-ref {:x?}, by-value {:x?}, left fold {:x?}", $name, stringify!($S), tiny, s1.bits(), s2.bits(), fs.bits()));
+                        }};
+                    }
+                    special_sum!("Vector3", Vector3<$S>, Vector3::<$S>::zero(), Vector3::new(tiny, 0.0, -tiny));
+                    special_sum!("Vector4", Vector4<$S>, Vector4::<$S>::zero(), Vector4::new(tiny, 0.0, -tiny, tiny));
+                    special_sum!("Matrix3", Matrix3<$S>, Matrix3::<$S>::zero(), Matrix3::from_value(tiny));
+                    special_sum!("Matrix4", Matrix4<$S>, Matrix4::<$S>::zero(), Matrix4::from_value(tiny));
+                    special_sum!("Quaternion", Quaternion<$S>, Quaternion::<$S>::zero(), Quaternion::new(tiny, 0.0, tiny, 0.0));
+                    special_sum!("Rad", Rad<$S>, Rad::<$S>::zero(), Rad(tiny));
+                    special_sum!("Deg", Deg<$S>, Deg::<$S>::zero(), Deg(tiny));
+                }
                 hard_sum!("Vector1", Vector1::<$S>::zero(), |i: usize| Vector1::new(h[i]));
                 hard_sum!("Vector2", Vector2::<$S>::zero(), |i: usize| Vector2::new(h[i], h[i + 5]));
                 hard_sum!("Vector3", Vector3::<$S>::zero(), |i: usize| Vector3::new(h[i], h[i + 3], h[i + 6]));
